@@ -328,18 +328,30 @@ def _run(D):
     ctx.probe('run_family')
     kind = D.pick('cfg', 'algo', RUN_ALGOS)
     box = D.pick('cfg', 'box', ('unit', 'negative', 'offset', 'mixedsign', 'tiny', 'huge'))
-    w = W.World(D, sim, fail='none', box=box, name='c10run')
+    rev = (None, 'worst', 'gradient')[D.weighted('cfg', 'revaluator', (3, 1, 1))] if kind in ('nsga2', 'epsmoea') else None
+    w = W.World(D, sim, fail='none', box=box, with_tol=True, name='c10run')
     p = w.problem
     path = W.fresh_db('c10r')
     definition = definition_of(p)
-    W.attach_store(w, path)
+    store = W.attach_store(w, path)
+    # every individual that is handed to the store, by object: the store keeps one row per id, so two different
+    # individuals synchronised under one id means that one of them is not returned by the view
+    synced = {}
+    real_sync = store.sync_individual
+
+    def spy_sync(individual):
+        synced.setdefault(individual.id, {})[id(individual)] = individual
+        return real_sync(individual)
+    store.sync_individual = spy_sync
     N = 2 + D.dec('cfg', 'N', 7)
     G = 1 + D.dec('cfg', 'G', 4)
     site = 'run of ' + kind
     try:
         with W.quiet():
             if kind in W.ALGOS:
-                alg = W.make_algorithm(kind, w, N, G)
+                alg = W.make_algorithm(kind, w, N, G, evaluator=rev)
+                if rev:
+                    ctx.probe('evaluator_' + rev)
             elif kind == 'sweep':
                 from artap.algorithm_sweep import SweepAlgorithm
                 from artap import operators as ops
@@ -378,6 +390,11 @@ def _run(D):
             ids.add(ind.id)
             model[ind.id] = model_of(ind)
         compare_view(ctx, path, model, definition, site, complete=False)
+        clash = [(i, list(objs.values())) for i, objs in synced.items() if len(objs) > 1]
+        if clash and not ctx.violations:
+            i, objs = clash[0]
+            ctx.violation('row_missing', site, '%d different individuals were synchronised under id %r (vectors %r): the store keeps '
+                          'one row per id, so all but one of them are lost' % (len(objs), i, [list(o.vector) for o in objs][:3]))
         if not model:
             ctx.violation('final_store_incomplete', site, 'run recorded no individuals')
     except (kernel.Deadlock, kernel.StepCap):
@@ -392,10 +409,11 @@ def _run(D):
             ctx.violation('unexpected_exception', site, 'run with a store raised %r' % (e,))
     finally:
         p.data_store = None
+        store = None
         W.remove_db(path)
-    ctx.sample = {'family': 'run', 'algorithm': kind, 'N': N, 'G': G, 'rows': len(p.individuals), 'n': w.n, 'm': w.m,
+    ctx.sample = {'family': 'run', 'algorithm': kind, 'evaluator': rev or 'simple', 'N': N, 'G': G, 'rows': len(p.individuals), 'n': w.n, 'm': w.m,
                   'box': w.boxkind}
-    ctx.sig('run', kind, N, G, w.n, w.m, len(p.individuals), box)
+    ctx.sig('run', kind, rev, N, G, w.n, w.m, len(p.individuals), box)
     # in the run family a missing or stale row is the "final store incomplete" clause
     for v in ctx.violations:
         if v['clause'] in ('row_missing', 'field_ne_model'):
